@@ -582,6 +582,7 @@ def run(ctx):
     # ---------------- R14 explicit panic sites
     from rules import panics
     panics.explicit_panics(ctx, "C01.R14", [core, cli, wasm], G)
+    panics.pratt_nonempty(ctx, "C01.R15", [core, cli, wasm], G)
 
     # ---------------- R10 table lookups that `expect`
     ctx.rule("C01.R10", "operator_info's expect is discharged: every BinaryOp variant has exactly one row in PRECEDENCE_TABLE", floor=26)
@@ -697,7 +698,7 @@ def mandatory_children(G, rule):
     """number of child pairs the rule always produces (non-silent references outside ?, *, predicates), through silent rules"""
     def count(e, depth=0):
         k = e["k"]
-        if depth > 12:
+        if depth > 120:
             return 0
         if k == "ident":
             if e["v"] not in G.rules:
